@@ -12,6 +12,7 @@ import (
 
 	api "github.com/regen-network/regen-ledger/api/v2/regen/data/v1"
 	"github.com/regen-network/regen-ledger/x/data/v3"
+	_ "github.com/regen-network/regen-ledger/x/data/v3/genesis" // loaded for genesis.validateMsg (C09)
 	zz "github.com/regen-network/regen-ledger/x/data/v3/zzverif"
 )
 
@@ -51,12 +52,13 @@ func dataResolverOK(r *api.DataResolver) bool {
 }
 
 const dataPkg = "github.com/regen-network/regen-ledger/x/data/v3"
+const genesisPkg = dataPkg + "/genesis"
 
 func install16() {
 	// IRI construction and content-hash validation are decided at byte level by the C15
 	// kernels; here they are functions of the content hash, nothing more
 	for _, f := range []string{"(" + dataPkg + ".ContentHash_Raw).ToIRI", "(" + dataPkg + ".ContentHash_Graph).ToIRI",
-		"(*" + dataPkg + ".ContentHash_Raw).Validate", "(*" + dataPkg + ".ContentHash_Graph).Validate"} {
+		"(*" + dataPkg + ".ContentHash_Raw).Validate", "(*" + dataPkg + ".ContentHash_Graph).Validate", dataPkg + ".ParseIRI"} {
 		zz.Summarize(f)
 	}
 	zz.OrmInvariant(tDataID, dataIDOK)
@@ -153,6 +155,7 @@ func runStep16(req sdk.Msg, lemmas func(), call func(s serverImpl, ctx context.C
 	has = zz.OrmRow1(tResolver, &r1, srid)
 	zz.Assert(zz.Implies(had, has), "C16 a resolver is never removed")
 	zz.Assert(zz.Implies(had, zz.And(r1.Url == r0.Url, zz.BytesEq(r1.Manager, r0.Manager))), "C16 a resolver keeps its url and manager")
+	zz.Assert(zz.Implies(had, zz.And(r1.Url == r0.Url, zz.BytesEq(r1.Manager, r0.Manager))), "C08 no data message changes an existing resolver's url or manager (there is no message for it)")
 	zz.Assert(zz.Implies(zz.OrmExists0(tDataResolver, sid, srid), zz.OrmExists1(tDataResolver, sid, srid)), "C16 a resolver registration is never lost")
 	if hook != nil {
 		hook(st)
@@ -164,6 +167,16 @@ func runStep16(req sdk.Msg, lemmas func(), call func(s serverImpl, ctx context.C
 	zz.Assert(zz.AllWritten(tDataAttestor, dataAttestorOK), "C16 every attestation has its anchor")
 	zz.Assert(zz.AllWritten(tDataResolver, dataResolverOK), "C16 every registration has its anchor and resolver")
 	w16 = 0
+	// C09 (data module): every row a handler writes is accepted by the validator the module's
+	// own ValidateGenesis applies to each row of an exported state (genesis.validateMsg, the
+	// JSONValidator of the module database; the real function is executed, its protobuf JSON
+	// round trip PulsarToGogoSlow is a field-wise copy in the engine).
+	genesisOK := func(m interface{}) bool { return zz.CallUnexported(genesisPkg, "validateMsg", m) == nil }
+	zz.Assert(zz.AllWritten(tDataID, func(r *api.DataID) bool { return genesisOK(r) }), "C09 written DataID rows pass genesis validation")
+	zz.Assert(zz.AllWritten(tDataAnchor, func(r *api.DataAnchor) bool { return genesisOK(r) }), "C09 written DataAnchor rows pass genesis validation")
+	zz.Assert(zz.AllWritten(tDataAttestor, func(r *api.DataAttestor) bool { return genesisOK(r) }), "C09 written DataAttestor rows pass genesis validation")
+	zz.Assert(zz.AllWritten(tDataResolver, func(r *api.DataResolver) bool { return genesisOK(r) }), "C09 written DataResolver rows pass genesis validation")
+	zz.Assert(zz.AllWritten(tResolver, func(r *api.Resolver) bool { return genesisOK(r) }), "C09 written Resolver rows pass genesis validation")
 	if st.err == nil {
 		zz.Reach("handler succeeds")
 	} else {
@@ -171,11 +184,20 @@ func runStep16(req sdk.Msg, lemmas func(), call func(s serverImpl, ctx context.C
 	}
 }
 
-// iriLemma: an IRI is never the empty string (every IRI ToIRI returns is parsed back by
-// ParseIRI, which rejects the empty string: C15 round-trip obligations).
-func iriLemma(ch interface{ ToIRI() (string, error) }) {
+// iriLemma: an IRI is never the empty string, and the IRI of a valid content hash is accepted
+// by ParseIRI (both are what the C15 kernels decide at byte level: "C15 ParseIRI accepts the
+// IRI of a valid raw/graph hash"; ParseIRI rejects the empty string). Here ToIRI, Validate
+// and ParseIRI are uninterpreted functions related by exactly these two facts.
+func iriLemma(ch interface {
+	ToIRI() (string, error)
+	Validate() error
+}) {
 	iri, err := ch.ToIRI()
 	zz.Assume(zz.Or(err != nil, iri != ""))
+	if err == nil && ch.Validate() == nil {
+		_, perr := data.ParseIRI(iri)
+		zz.Assume(perr == nil)
+	}
 }
 
 // anchored16: after a successful message the content hash's IRI has an id, that id is
@@ -231,6 +253,8 @@ func VerifHarness_C16_Attest() {
 		}
 		// nobody else's attestation appears
 		zz.Assert(zz.AllWritten(tDataAttestor, func(r *api.DataAttestor) bool { return zz.BytesEq(r.Attestor, addr) }), "C16 Attest records attestations of the signer only")
+		zz.Assert(zz.AllWritten(tDataAttestor, func(r *api.DataAttestor) bool { return zz.BytesEq(r.Attestor, addr) }), "C08 Attest records attestations in the name of the signer only")
+		zz.Assert(zz.OrmWrites(tResolver)+zz.OrmWrites(tDataResolver) == 0, "C08 Attest writes no resolver and no registration")
 	})
 }
 
@@ -250,6 +274,8 @@ func VerifHarness_C16_DefineResolver() {
 		zz.Assert(zz.OrmRow1(tResolver, &r, resp.ResolverId), "C16 DefineResolver stores the resolver")
 		addr, _ := sdk.AccAddressFromBech32(req.Definer)
 		zz.Assert(r.Url == req.ResolverUrl, "C16 DefineResolver stores the url")
+		zz.Assert(zz.OrmWrites(tResolver) == 1, "C08 DefineResolver writes exactly the resolver it defines")
+		zz.Assert(zz.OrmWrites(tDataID)+zz.OrmWrites(tDataAnchor)+zz.OrmWrites(tDataAttestor)+zz.OrmWrites(tDataResolver) == 0, "C08 DefineResolver writes nothing but the resolver")
 		if req.Public {
 			zz.Assert(len(r.Manager) == 0, "C16 a public resolver has no manager")
 		} else {
@@ -276,6 +302,8 @@ func VerifHarness_C16_RegisterResolver() {
 		zz.Assert(zz.OrmRow0(tResolver, &r, req.ResolverId), "C16 RegisterResolver succeeds only for a defined resolver")
 		addr, _ := sdk.AccAddressFromBech32(req.Signer)
 		zz.Assert(zz.Or(len(r.Manager) == 0, zz.BytesEq(r.Manager, addr)), "C16 only the manager registers data to a non-public resolver")
+		zz.Assert(zz.Or(len(r.Manager) == 0, zz.BytesEq(r.Manager, addr)), "C08 RegisterResolver succeeds only for the resolver's manager unless the resolver is public")
+		zz.Assert(zz.OrmWrites(tResolver) == 0, "C08 RegisterResolver writes no resolver")
 		for _, ch := range req.ContentHashes {
 			iri, err := ch.ToIRI()
 			zz.Assert(err == nil, "C16 RegisterResolver succeeds only for content hashes with an IRI")
